@@ -733,6 +733,9 @@ def wide_stream(ck, iexe, n, n_samples, tag):
     return list(zip(cases, res))
 
 
+WIDE_EXACT_BOUND = 2 ** 40     # feedback values grow geometrically; intermediates stay below 2^53 while the outputs are below this
+
+
 def wide_output_mismatch(case, r):
     """C02's clause on one wide-self case: None, or a description of the first difference from the reference stream"""
     for be in ("vm", "wasm"):
@@ -740,6 +743,8 @@ def wide_output_mismatch(case, r):
         if b is None or 'samples' not in b:
             return "%s rejects/panics at compile time: %s" % (be, str((b or {}).get('compile') or (b or {}).get('compile_panic'))[:200])
         for t, row in enumerate(case["expect"]):
+            if any(abs(v) > WIDE_EXACT_BOUND for v in row):
+                break       # from here on the f64 arithmetic of the backends is no longer exact: the integer reference says nothing
             if t >= len(b['samples']):
                 return "%s stopped at sample %d" % (be, t)
             o = sample_outs(b, t)
